@@ -132,8 +132,8 @@ def h_filter_bookkeeping(preset):
         # model's ends), and model 1 may share a read with model 0
         offs = [(0, 0), (80, 0), (0, 80), (80, 80)]
         for k in range(2):
-            s_ = 1050 if k == 0 else g.int("model1_start", 960, 1140)
-            e_ = 3150 if k == 0 else g.int("model1_end", 3060, 3240)
+            s_ = 1050 if k == 0 else [1050, 1000, 1100, 1046][g.choice("model1_start", 4)]
+            e_ = 3150 if k == 0 else [3150, 3200, 3100, 3154][g.choice("model1_end", 4)]
             m = TranscriptModel("chr1", "+", "transcript%d.chr1.nnic" % (k + 1), "novel_gene_chr1_9", [(s_, 1200), (2000, 2150), (3000, e_)],
                                 TranscriptModelType.novel_not_in_catalog)
             m.intron_path = tuple(introns)
@@ -266,7 +266,7 @@ def instances(tier, seed):
     for preset in (["default"] if q else ["precise", "default", "loose"]):
         out.append(Instance("filter_bookkeeping[%s]" % preset, h_filter_bookkeeping(preset),
                             [G + "filter_transcripts", G + "delete_from_storage", G + "detect_similar_isoforms", G + "correct_novel_transcript_ends", G + "mapping_quality"],
-                            "two novel models with one intron chain, symbolic ends / read ends / unique-read counts / component coverage", weight=800, budget_s=1500))
+                            "two novel models with one intron chain: 16 relative placements x 16 read-end patterns x shared read, symbolic unique-read counts and component coverage", weight=800, budget_s=1500))
         out.append(Instance("similar[%s]" % preset, h_similar(preset), [G + "detect_similar_isoforms", "src.long_read_assigner:LongReadAssigner.assign_to_isoform"],
                             "two novel models with one intron chain, symbolic ends", weight=300, budget_s=1800))
     return out
